@@ -7,8 +7,12 @@ def bag(f):
     return [{"key": list(key(a)), "n": dec.to_dec(c)} for a, c in f.atoms.items()]
 
 
-def comp_of(f, q, unit="", rep=1):
-    return {"atoms": bag(f), "mass": dec.to_dec(f.mass), "rho": dec.enc(f.density), "q": dec.to_dec(q), "unit": unit, "rep": dec.to_dec(rep)}
+def comp_of(f, q, unit="", rep=1, tag=None):
+    c = {"atoms": bag(f), "mass": dec.to_dec(f.mass), "rho": dec.enc(f.density), "q": dec.to_dec(q), "unit": unit, "rep": dec.to_dec(rep)}
+    if tag:          # density tag written on a parenthesised group: "@1.1", "@1.1i", "@2n"
+        c["tag"] = {"v": dec.to_dec(tag.lstrip("@").rstrip("ni")), "k": "n" if tag.endswith("n") else "d"}
+        c["massnat"] = dec.to_dec(sum(n * _natural(a).mass for a, n in f.atoms.items()))
+    return c
 
 
 def result_of(fn):
@@ -61,7 +65,7 @@ def _parts_event(spec):
             elif form == "layer":
                 parts.append(comp_of(f, f.thickness, "group", p.get("rep", 1)))
             else:
-                parts.append(comp_of(f, p.get("q", 0), "", 1))
+                parts.append(comp_of(f, p.get("q", 0), "", 1, tag=p.get("dens") or None))
         else:
             f = P.formula(p["f"])
             parts.append(comp_of(f, p.get("q", 0), p.get("unit", ""), 1))
